@@ -622,19 +622,17 @@ theorem commit_ok (t t' : T) (h : Aligned t) (hc : commit t = .ok t') :
       have hn : t.pers ≤ t.rows.length := by have := h.vol_le; omega
       rw [iterSlice_from t t.pers h hn] at hc
       simp only at hc
-      split at hc
-      · cases hc
-      · rename_i hgz
-        injection hc with hc
-        subst hc
-        have hfile : t.file ++ (abs t).drop t.pers = abs t := by
-          conv => rhs; rw [← List.take_append_drop t.pers (abs t)]
-          rw [abs_take_pers t h hv]
-        simp only [sync, hfile]
-        simp
+      injection hc with hc
+      subst hc
+      have hfile : t.file ++ (abs t).drop t.pers = abs t := by
+        conv => rhs; rw [← List.take_append_drop t.pers (abs t)]
+        rw [abs_take_pers t h hv.1]
+      simp only [sync, hfile]
+      simp
     · injection hc with hc
       subst hc
       simp [sync]
+      intro hg; simp [hg]
   · rename_i htx
     injection hc with hc
     subst hc
@@ -647,21 +645,17 @@ theorem commit_ok (t t' : T) (h : Aligned t) (hc : commit t = .ok t') :
       rw [abs_length h]; omega
     simp [sync, hfile]
 
-theorem commit_err (t : T) (e : Err) (h : Aligned t) (hc : commit t = .error e) :
-    e = .notImplemented ∧ t.gz = true := by
-  unfold commit at hc
-  split at hc
-  · split at hc
+/-- commit never raises -/
+theorem commit_total (t : T) (h : Aligned t) : ∃ t', commit t = .ok t' := by
+  unfold commit
+  split
+  · split
     · rename_i hv
       have hn : t.pers ≤ t.rows.length := by have := h.vol_le; omega
-      rw [iterSlice_from t t.pers h hn] at hc
-      simp only at hc
-      split at hc
-      · rename_i hgz; cases hc; exact ⟨rfl, hgz⟩
-      · cases hc
-    · cases hc
-  · cases hc
-
+      rw [iterSlice_from t t.pers h hn]
+      exact ⟨_, rfl⟩
+    · exact ⟨_, rfl⟩
+  · exact ⟨_, rfl⟩
 
 /-! ### extend -/
 
@@ -780,9 +774,8 @@ theorem update_err (t : T) (i : Int) (cols : List (Nat × Nat)) (e : Err) (h : A
 
 /-- what one step guarantees -/
 def StepOK (t : T) (op : Op) : Prop :=
-  Aligned (step t op).1 ∧ (step t op).1.width = t.width ∧ (t.gz = false → (step t op).1.gz = false)
-  ∧ (specStep t.width (absS t) op = (absS (step t op).1, (step t op).2)
-      ∨ (op = .commit ∧ t.gz = true ∧ step t op = (t, some .notImplemented)))
+  Aligned (step t op).1 ∧ (step t op).1.width = t.width
+  ∧ specStep t.width (absS t) op = (absS (step t op).1, (step t op).2)
 
 theorem step_ok (t : T) (op : Op) (h : Aligned t) : StepOK t op := by
   unfold StepOK
